@@ -226,6 +226,44 @@ def run(ctx):
         time.tzset()
         if drv:
             drv.close()
+    # one run that crosses a daylight-saving switch (simulated process clock in a fresh interpreter, real zone rules)
+    try:
+        import subprocess
+        for z in ("Europe/Berlin", "America/New_York", "Australia/Sydney"):
+            set_tz(z)
+            _pts, _base, trs, _lo, _hi = critical_instants(z)
+            for T, _o in trs[:2]:
+                with rt.tempdir("c16s_") as d:
+                    root = os.path.join(d, "root")
+                    rt.mk(root, {"f%02d.bin" % i: "content %d" % i for i in range(12)})
+                    pr = subprocess.run(["/venv/bin/python", os.path.join(rt.VERIF, "harness", "simclock_case.py"), rt.REPO, root, str(T - 5400), "600"], capture_output=True, text=True, timeout=120, env=dict(os.environ, TZ=z))
+                    evals += 1
+                    line = [l for l in pr.stdout.split("\n") if l.startswith("{")]
+                    if not line:
+                        ctx.notes.append(f"simulated-clock case produced no result: {pr.stderr[-200:]!r}")
+                        continue
+                    o = json.loads(line[-1])
+                    shown = {round(x, 3) for x in o["shown"]}
+                    if o["exit"] != 0 or o["exc"]:
+                        fails.append({"what": f"TZ={z}: create under a process clock that crosses the switch at {T}: exit {o['exit']} {o['exc']}", "replay": {"tz": z, "switch": T}})
+                    for ds in o["dates"]:
+                        try:
+                            inst, off, _ = parse_iso(ds)
+                        except Exception as e:
+                            fails.append({"what": f"TZ={z}: date {ds!r} written by a run that crosses the switch at {T}: {e}", "replay": {"tz": z, "switch": T}})
+                            continue
+                        if round(inst, 3) not in shown and int(inst) not in {int(x) for x in shown}:
+                            fails.append({"what": f"TZ={z}: a run whose clock crosses the switch at instant {T} writes the date {ds}, which denotes instant {inst:.0f}: the clock never showed that instant during the run (nearest shown: {min(shown, key=lambda x: abs(x - inst)):.0f})", "replay": {"tz": z, "switch": T, "date": ds}})
+                        elif off != offset_at(z, int(inst)):
+                            fails.append({"what": f"TZ={z}: date {ds} written across the switch at {T} carries offset {off}, in force at that instant: {offset_at(z, int(inst))}", "replay": {"tz": z, "switch": T, "date": ds}})
+    except Exception as e:
+        ctx.notes.append(f"simulated-clock case not run: {e!r}")
+    finally:
+        if old_tz is None:
+            os.environ.pop("TZ", None)
+        else:
+            os.environ["TZ"] = old_tz
+        time.tzset()
     for w in ("D7", "D3"):
         for msg in witnesses.ALL[w]():
             fails.append({"what": f"regression of fixed defect {w}: {msg}", "replay": {"witness": w}})
